@@ -76,7 +76,7 @@ def job(cfg):
     wt = cfg["wt"]
     n, na, nb = (3, 1, 1) if wt == "restricted" else (3, 2, 1)
     sysd = samplers.system(n, na, nb, 1, cfg["seed"], wt, scale=0.7)
-    D = 4 if not thorough else 6
+    D = 4 if not thorough else 5
     tn, tu, S = make_tables(cfg, D)
     vr = vrng.install(tn, tu)
     L = samplers.lib()
@@ -302,7 +302,7 @@ class _Collector:
 def run(ctx):
     ctx.rule = ("cells = walker type {restricted+rhf, unrestricted+uhf} x block structure (n_steps,n_ene,n_sr) in {1,2}^3 (4 of 8 in quick) "
                 "x n_batch {1,2} x entry point {plain, ad, ad_norot, ad_nosr, ad_nosr_norot, 2-RDM ad_1}; inside each cell EVERY stream of the "
-                "virtual random source: all words over field letters {0,+-1.7} on D=4 (6 thorough) draw positions spread over the blocks x "
+                "virtual random source: all words over field letters {0,+-1.7} on D=4 (5 thorough) draw positions spread over the blocks x "
                 "all words over comb-offset letters {0.2,0.8}; state = (cell, stream); non-trivial distinct = distinct block energies; "
                 "driver.afqmc itself over the option matrix ad_mode x orbital_rotation x do_sr x walker_type")
     ctx.assume("random numbers are owned by rebinding the `random` name of ad_afqmc.sampling/propagation/driver; draw positions beyond D carry a fixed non-trivial filler")
